@@ -239,6 +239,30 @@ def rule_correspondence(repo, rule):
                     verdict, detail = "violation", "%s when {%s}" % (p_, ", ".join(desc))
                 elif verdict is None:
                     verdict = "ok"
+    # a return that hands back the pair of ANOTHER division (`return (-self).__divmod__(-divisor)`): by induction that pair is
+    # (E // F, E - (E // F)*F); for (E, F) = (k*s, k*d) the quotient is the same and the remainder is k times Python's - so
+    # the pair may only be returned as it is when k = 1
+    for r_ in rets_of(dm):
+        c_ = r_.value
+        if not (isinstance(c_, ast.Call) and ((isinstance(c_.func, ast.Attribute) and c_.func.attr == "__divmod__" and len(c_.args) == 1)
+                                              or (norm(c_.func) == "divmod" and len(c_.args) == 2))):
+            continue
+        e_, f_ = (c_.func.value, c_.args[0]) if isinstance(c_.func, ast.Attribute) else (c_.args[0], c_.args[1])
+        try:
+            vv = Valuer({dm.params[0]: P.sym("s"), dm.params[1]: P.sym("d")})
+            pe, pf = vv._p(e_), vv._p(f_)
+        except Exception:
+            rule.undecided(dm.loc(r_), dm.fq, norm(r_), "delegated division with operands outside the value engine")
+            continue
+        ks = [k_ for k_ in (-1, 2, -2) if pe == P.sym("s") * k_ and pf == P.sym("d") * k_]
+        if ks:
+            verdict = "violation"
+            detail = "`%s` hands back the remainder of the scaled problem: (%d*s) %% (%d*d) = %d * (s %% d), not s %% d" % (
+                norm(r_)[:60], ks[0], ks[0], ks[0])
+            rets = [r_] + rets
+        elif not (pe == P.sym("s") and pf == P.sym("d")):
+            if verdict != "violation":
+                verdict, detail = "undecided", "delegated division `%s` on other operands" % norm(r_)[:60]
     if verdict == "ok":
         rule.ok(dm.loc(rets[0]), dm.fq, "returns (s // d, s - (s // d)*d)", "Python's floor division and modulo on every path with checks on")
     elif verdict == "violation":
